@@ -6,6 +6,7 @@ import checks_flow as cf
 import checks_pool as cp
 import checks_spl as cs
 import checks_grid as cg
+import checks_adi as ca
 import gen
 import vlib
 from runner import Check
@@ -213,6 +214,12 @@ def plan_C15(ck):
               tag="c15", nontrivial=cf.nontrivial_world, sample_events=("BasinGraph",))
 
 
+def plan_C14(ck):
+    q = ck.tier == "quick"
+    ck.traces(ca.adi_cases(ck.seed + 14, 400 if q else 10000, "C14", max_side=6 if q else 8), [], tag="c14",
+              spec=("ADITrace.tla", "ADITrace.cfg"), sample_events=("Adi",))
+
+
 GRID_SPEC = ("GridTrace.tla", "GridTrace.cfg")
 
 
@@ -233,7 +240,7 @@ def plan_C18(ck):
     ck.traces(cg.mesh_cases(ck.seed + 18, 200 if q else 5000, "C18"), ["C18"], tag="c18", spec=GRID_SPEC, sample_events=("GridNew",))
 
 
-PLANS = {"C15": plan_C15, "C20": plan_C20, "C07": plan_C07, "C17": plan_C17, "C18": plan_C18, "C12": plan_C12, "C13": plan_C13, "C10": plan_C10, "C11": plan_C11, "C09": plan_C09, "C16": plan_C16, "C01": plan_C01, "C02": plan_C02, "C03": plan_C03, "C04": plan_C04, "C05": plan_C05, "C06": plan_C06,
+PLANS = {"C14": plan_C14, "C15": plan_C15, "C20": plan_C20, "C07": plan_C07, "C17": plan_C17, "C18": plan_C18, "C12": plan_C12, "C13": plan_C13, "C10": plan_C10, "C11": plan_C11, "C09": plan_C09, "C16": plan_C16, "C01": plan_C01, "C02": plan_C02, "C03": plan_C03, "C04": plan_C04, "C05": plan_C05, "C06": plan_C06,
          "C19": plan_C19}
 
 
